@@ -1,6 +1,7 @@
 (* C06 correspondence cases: a mapping set, two namespaces, a super-class provider and a list
    of queries, each with what the implementation answered. *)
 From FB Require Export C06.Model.
+From FB Require Import C06.Theory2 C06.Theory3.
 
 Definition key3 := (str * (str * str))%type.   (* class, (name, descriptor) *)
 
@@ -22,8 +23,12 @@ Inductive case :=
     (* map_desc through a hand-written ARemapper whose map_class_fail is the table T *)
 | CA (M : mappings) (from to : N) (qs : list query)
     (* Mappings::remapper_a(from, to) and queries against it *)
-| CB (M : mappings) (from to : N) (I : inh) (built : bool) (qs : list query).
-    (* Mappings::remapper_b(from, to, &I); built = false when it returned Err *)
+| CB (hyp : bool) (M : mappings) (from to : N) (I : inh) (qa : list query) (built : bool) (qs : list query).
+    (* qa: answers of Mappings::remapper_a(from, to); then Mappings::remapper_b(from, to, &I),
+       built = false when it returned Err, and the answers to qs.
+       hyp = true: the generator claims the world satisfies the decidable hypotheses of the theorems
+       (rows_valid, tables_inj in both directions, names_valid); the model re-checks them, and for
+       every world that the traversal from every provider key is bounded by the default fuel *)
 
 Definition okey_eqb := opt_eqb key_eqb.
 Definition key3_eqb (a b : key3) : bool := str_eqb (fst a) (fst b) && key_eqb (snd a) (snd b).
@@ -34,6 +39,10 @@ Definition check_a (T : atable) (q : query) : bool :=
   | QClassFail c r => opt_eqb str_eqb (a_map_class_fail T c) r
   | QClassAny c r => res_eqb str_eqb (a_map_class_any T c) r
   | QDesc d r => res_eqb str_eqb (a_map_desc T d) r
+  (* ARemapperAsBRemapper(remapper_a): no member is ever found, the fall-back always applies *)
+  | QFieldFail _ _ r | QMethodFail _ _ r => res_eqb okey_eqb (Ok None) r
+  | QField _ k r | QMethod _ k r =>
+      res_eqb key_eqb (match a_map_desc T (snd k) with Ok d => Ok (fst k, d) | Err => Err end) r
   | _ => false
   end.
 
@@ -66,9 +75,12 @@ Definition check (c : case) : bool :=
   match c with
   | CDesc T d r => res_eqb str_eqb (map_desc (tbl_map_class T) d) r
   | CA M from to qs => forallb (check_a (remapper_a M (N.to_nat from) (N.to_nat to))) qs
-  | CB M from to ih built qs =>
+  | CB hyp M from to ih qa built qs =>
+      forallb (check_a (remapper_a M (N.to_nat from) (N.to_nat to))) qa &&
+      forallb (fun e => bounded (default_fuel ih) ih (fst e)) ih &&
       match remapper_b M (N.to_nat from) (N.to_nat to) with
-      | Err => negb built
-      | Ok R => built && forallb (check_b R ih) qs
+      | Err => negb built && negb hyp
+      | Ok R => built && forallb (check_b R ih) qs &&
+                (negb hyp || (rows_valid M && tables_inj R && tables_inj (swap_b R) && names_valid R))
       end
   end.
